@@ -1,4 +1,7 @@
 pub mod echo;
+pub mod enc;
+pub mod hash;
+pub mod nsprobe;
 pub mod lex;
 pub mod mem;
 pub mod memrw;
@@ -11,6 +14,9 @@ pub type LaneFn = fn(&str) -> String;
 pub fn find(name: &str) -> Option<LaneFn> {
     Some(match name {
         "echo" => echo::run,
+        "enc" => enc::run,
+        "hash" => hash::run,
+        "nsprobe" => nsprobe::run,
         "lex" => lex::run,
         "mem" => mem::run,
         "memrw" => memrw::run,
